@@ -150,6 +150,8 @@ type Program struct {
 	Pool []dbh.HexBytes `json:"pool"`
 	Ops  []Op           `json:"ops"`
 	KOps []kop          `json:"kops,omitempty"` // a (K) program instead of Ops
+	Storm *Storm        `json:"storm,omitempty"` // a merge storm instead of Ops
+	Walk  *Walk         `json:"walk,omitempty"`  // a backward walk instead of Ops
 }
 
 func loadProgram(path string) (*Program, error) {
